@@ -210,6 +210,9 @@ package snowflake_client
 //@   props C15
 //@   flag nosafety safety-close
 //@   assumes c != nil && c.closed != nil && !closed(c.closed)
+//   Pop skips peers by asking Closed(): the peer is marked closed BEFORE its pipe and channel are torn down, so that a
+//   peer in the middle of its teardown is never handed to the data path.
+//@   at call cleanup assert {marked-closed-before-the-parts-are-released} closed(c.closed)
 //@   ensures {first-close-marks-closed-and-releases-the-parts} closed(c.closed) && calls(cleanup) == 1
 //
 //@ func (c *WebRTCPeer) cleanup()
